@@ -430,7 +430,7 @@ def nonfunctional_events(rng, tier, stats):
         evs.append(ev("s2.sqrt", x=s2(x), n=4, exc=e, out=s2(v) if e == "" else []))
     for _ in range(150 if tier == "quick" else 1500):
         r = rnd_s2(rng, 300)
-        sq = r * r if rng.random() < 0.6 else rnd_s2(rng, 2000)
+        sq = r * r if rng.random() < 0.6 else rnd_s2(rng, 400)
         v, e = call(sq.sqrt)
         evs.append(ev("s2.sqrt", x=s2(sq), n=math.isqrt(abs(sq.a)) + 1, exc=e, out=s2(v) if e == "" else []))     # a root has a^2 + 2b^2 = sq.a
         stats["sqrt_found" if e == "" else "sqrt_none"] += 1
@@ -443,7 +443,7 @@ def nonfunctional_events(rng, tier, stats):
     O2 = [ZOmega(a, b, c, d) for a in range(-2, 3) for b in range(-2, 3) for c in range(-2, 3) for d in range(-2, 3)]
     for ix, x in enumerate(O):
         for iy, y in enumerate(O):
-            if any(om(y)) and (tier != "quick" or (ix + iy) % 3 == 0):
+            if any(om(y)) and (tier != "quick" or (ix + iy) % 5 == 0):
                 v, e = call(lambda: x % y, limit=1)
                 evs.append(ev("om.mod", x=om(x), y=om(y), exc=e, out=om(v) if e == "" else []))
     for x in O2:
@@ -496,7 +496,7 @@ def matrix_events(rng, tier, stats):
     evs = []
     H = DyadicMatrix(ZOmega(d=1), ZOmega(d=1), ZOmega(d=1), ZOmega(d=-1), k=1)
     T = DyadicMatrix(ZOmega(d=1), ZOmega(), ZOmega(), ZOmega(c=1))
-    n_gen = 60 if tier == "quick" else 600
+    n_gen = 40 if tier == "quick" else 600
     for it in range(n_gen):
         # general (non-unitary) matrices with small entries: ring laws of @ and +
         A, B, C = (rnd_dyadic(rng, 2, 3) for _ in range(3))
@@ -572,11 +572,11 @@ def number_theory_events(rng, tier, stats):
     stats["primality_exhaustive_below"] = top
     cands = [n for n in HARD_NUMBERS if 1 < n < (1 << 30)]
     p = 101
-    while len(cands) < (120 if tier == "quick" else 600) and p < 23000:     # n = p (2p - 1) < 2^30: Fermat-pseudoprime shaped composites
+    while len(cands) < (80 if tier == "quick" else 600) and p < (5000 if tier == "quick" else 23000):     # n = p (2p - 1) < 2^30: Fermat-pseudoprime shaped composites
         if pow(2, p - 1, p) == 1 and pow(2, 2 * p - 2, 2 * p - 1) == 1:
             cands.append(p * (2 * p - 1))
         p += 2
-    for _ in range(120 if tier == "quick" else 1200):
+    for _ in range(60 if tier == "quick" else 1200):
         n = rng.randrange(1 << 16, 1 << 30) | 1
         cands.append(n)
         if pow(2, n - 1, n) == 1:
@@ -623,7 +623,7 @@ def number_theory_events(rng, tier, stats):
         b = rng.randint(-int(a / math.sqrt(2)), int(a / math.sqrt(2)))
         dioph([a, b], [])
     # integer factorisation and the splitting of rational primes in Z[sqrt2] (mechanism: evidence only)
-    for n in list(range(2, 300)) + [rng.randrange(2, 1 << 20) for _ in range(100 if tier == "quick" else 1000)]:
+    for n in list(range(2, 300)) + [rng.randrange(2, 1 << (16 if tier == "quick" else 20)) for _ in range(60 if tier == "quick" else 1000)]:
         v, e = call(lambda: ns._prime_factorize(n, 1000, False), limit=3)
         evs.append(ev("nt.factor", x=[n, _isqrt_bound(n)], exc=e, out=[int(f) for f in v] if e == "" else []))
     for p in [2] + _small_primes(300 if tier == "quick" else 2000):
@@ -678,7 +678,7 @@ def generate(tier):
     """Model check ZRings.tla (ring laws on the reference) and emit the rows for the replay: one JVM."""
     quick = tier == "quick"
     consts = {"MODES": '{"s2", "s2t", "om", "omt", "mat"}', "B2": 3 if quick else 4, "BO": 2, "BP": 1 if quick else 2, "BE": 1 if quick else 2,
-              "BT": 1, "SPARSE": 2 if quick else 4, "WLEN": 4 if quick else 6}
+              "BT": 1, "SPARSE": 2 if quick else 4, "WLEN": 3 if quick else 6}
     wd = lib.workdir(PID, "gen")
     g = lib.run_tlc("ZRingsGen", lib.cfg(constants=consts, invariants=INVARIANTS), wd, timeout=3000)
     if g.invariant_violated:
@@ -779,6 +779,10 @@ def run(tier, seed):
                         {"event": e, "clause": clause, "info": info})
     # vacuity (only when no ring / number-theory violation explains it: a faulty component starves the calls that depend on it)
     explained = any(not k.startswith(("dy.", "replay:dy.", "so3.", "replay:so3.")) for k in agg.d)
+    if not explained and stats["calls_skipped_after_timeouts"]:
+        raise lib.MachineryError(f"vacuous run: calls of the implementation exceeded their CPU limit ({dict(_TIMEOUTS)}) and "
+                                 f"{stats['calls_skipped_after_timeouts']} further calls were skipped - a Euclidean loop of the implementation does not "
+                                 f"terminate (mechanism counters: {dict(sorted(drift.items()))})")
     if not explained and stats["dioph_solvable"] and stats["dioph_solvable_solved"] * 2 < stats["dioph_solvable"]:
         raise lib.MachineryError(f"vacuous run: the solver solved only {stats['dioph_solvable_solved']} of {stats['dioph_solvable']} instances "
                                  "that have a solution by construction (soundness of returned solutions cannot be judged)")
